@@ -80,6 +80,27 @@ impl<T: Qcow2IoOps> Qcow2Dev<T> {
 
         if let Err(err) = self.call_write(0, &buf).await {
             rollback(h);
+            // a failed write may still have reached the disk: the header
+            // in ram is written again by the next flush
+            self.header_unsure.store(true, Ordering::Relaxed);
+            self.mark_need_flush(true);
+            return Err(err);
+        }
+        self.header_unsure.store(false, Ordering::Relaxed);
+        Ok(())
+    }
+
+    /// After a failed header write: make sure the disk holds the header
+    /// which is in ram
+    async fn settle_header(&self) -> Qcow2Result<()> {
+        if !self.header_unsure.load(Ordering::Relaxed) {
+            return Ok(());
+        }
+
+        let mut h = self.header.write().await;
+        self.commit_header(&mut h, |_| {}).await?;
+        if let Err(err) = self.call_fsync(0, usize::MAX, 0).await {
+            self.header_unsure.store(true, Ordering::Relaxed);
             return Err(err);
         }
         Ok(())
@@ -654,6 +675,8 @@ impl<T: Qcow2IoOps> Qcow2Dev<T> {
     }
 
     async fn __flush_meta(&self) -> Qcow2Result<()> {
+        self.settle_header().await?;
+
         loop {
             // read lock prevents update on l1 table (no new l2 table
             // can appear), meantime normal read and cache-hit write can
